@@ -18,4 +18,5 @@ var (
 	ErrNotEnoughRRTokenAmountForRotation      = sdkerrors.Register(ModuleName, 11, "not enough rr token amount for rotation")
 	ErrTargetAddressAlreadyHasRotationHistory = sdkerrors.Register(ModuleName, 12, "target address already has rotation history")
 	ErrTargetAddressHasIdentityRecords        = sdkerrors.Register(ModuleName, 13, "target address already has identity records")
+	ErrTargetAddressIsNetworkActor            = sdkerrors.Register(ModuleName, 14, "target address already is a network actor")
 )
